@@ -36,7 +36,8 @@ AllFinished(n, s) == \A i \in 1..n : s.st[i] = "finished"
 AlignedRet(n, s, ev) ==      \* for each task, in input order, either its value or its error
   /\ Len(ev.R) = n /\ Len(ev.E) = n
   /\ \A i \in 1..n : s.st[i] = "finished" =>
-        IF s.ok[i] THEN ev.R[i] = s.v[i] /\ ev.E[i] = 0 ELSE ev.E[i] = s.v[i]
+        IF s.ok[i] THEN ev.R[i] = s.v[i] /\ ev.E[i] = 0
+        ELSE ev.E[i] = s.v[i] /\ ev.R[i] = 0          \* the error and not also a value the failing task returned with it
 FlagsSet(n, ev) == Len(ev.F) = n /\ \A i \in 1..n : ev.F[i]
 
 (* well-formedness of a history (what any execution, right or wrong, must look like) *)
